@@ -159,6 +159,18 @@ CHECKS = {
         note='For functions without a functional model TLC contributes only the equality under the abstraction (a differential '
              'comparison whose comparator is the specification\'s abstraction), as stated in DESIGN.md.',
         ref='DESIGN.md 5 C12'),
+    'C14': dict(
+        technique='TLA+ char-level RFC 8259 recogniser/evaluator (BareJson.ParseJson, Acceptable) + TLC model checking of the '
+                  'reference serialiser (MC_Json: round trip, injectivity) + TLC judgement of real jsonStringify texts and parse-backs '
+                  '(Trace_Json)',
+        text='For every string of length <= 4 over {a . 0 , ] }} (1555 strings) as value, key and nested element, with indent none '
+             'and 1..8, and for random values to depth 5 over an alphabet with quotes, backslashes, slashes, control and non-BMP '
+             'characters and boundary numbers, the text produced by the real jsonStringify is parsed by the JSON grammar written '
+             'in TLA+ and must denote exactly the value (no character altered), with sorted unique keys and integral numbers '
+             'without a fraction; the real jsonParse and Python json.loads must map the text back to the value.',
+        note='Injectivity on real outputs follows from the parse-back clause (the text determines the value) and is model-checked '
+             'for the reference serialiser; CPython float repr is trusted for the digits of non-integral numbers.',
+        ref='DESIGN.md 5 C14'),
 }
 
 NOT_YET = 'check not built yet in this round (work in progress; see DESIGN.md section 9 build order)'
